@@ -82,7 +82,10 @@ def confirm(ov, prop, h, unlisted, modules, cfg):
            "--concrete-playback=print", "--target-dir", ov.target, "--output-format", "terse",
            "--harness-timeout", "%ds" % cfg["harness_s"], "--exact", "--harness", h["fq"]]
     rc, txt = _run(cmd, ov.tree, os.path.join(logdir, "playback-%s.log" % h["name"]), cfg["harness_s"] + 1200)
-    tests = [t for t in extract_tests(txt) if t[0] != "cover"]
+    # Kani de-duplicates playback tests by their concrete values and labels each with the first
+    # check that produced them, so a test labelled `cover` may carry the failing assertion's input:
+    # run all of them; only a native panic counts as reproduction.
+    tests = extract_tests(txt)
     hdr = ["// replay for property=%s harness=%s (module %s, crate %s)" % (prop, h["name"], h["module"], h["crate"]),
            "// failed checks not listed in known_findings.json:"]
     for fc in unlisted:
